@@ -55,6 +55,7 @@ typedef struct T {
     int rc;
     int nbad;
     pstm_int *dirty;       /* result object left with non-zero digits above `used` */
+    int sigx;              /* op-specific part of the crash-class signature */
 } T;
 
 static const char *g_variant = "asan";
@@ -64,7 +65,8 @@ static mpz_t ZA, ZB, ZC, ZE, ZE2, ZT, ZT2, ZG;
 /* State shared (MAP_SHARED) between the shard parent and its forked batch children, so that
  * counters and distinct-case hashes survive a child that is killed by a sanitizer report. */
 #define NSTAT 200
-typedef struct { volatile long cur; char spec[160]; volatile unsigned long dn; int nstat; struct { char k[64]; long v; } st[NSTAT]; } shared_t;
+typedef struct { volatile long cur; char spec[160]; volatile unsigned long dn; int nstat; struct { char k[64]; long v; } st[NSTAT];
+                 volatile int cursig; unsigned char crashcnt[64][256]; } shared_t;
 static shared_t *SH;
 static uint64_t *DSET;
 #define DCAP (1UL << 21)
@@ -280,6 +282,20 @@ static void check_int(T *t, const char *what, long got, long exp)
 {
     if (got != exp) { mpz_set_si(ZG, got); mpz_set_si(ZT2, exp); report(t, "wrong-result", what, ZG, ZT2); }
 }
+/* Crash containment.  A sanitizer report kills the batch child; the parent resumes behind the
+ * case.  A defect that aborts on every call of one sub-class (function x alias x stale x mode)
+ * would cost one fork + symbolised report per case, so after MAXCRASH aborts of the same
+ * sub-class in this shard its remaining cases are skipped (and counted); every other
+ * sub-class of the function is still executed. */
+#define MAXCRASH 4
+static int guard(T *t)
+{
+    int sig = t->sigx ? (0x80 | (t->sigx & 0x7f)) : ((t->alias & 7) | ((t->stale & 3) << 3));
+    SH->cursig = sig;
+    if (SH->crashcnt[t->opid][sig] >= MAXCRASH && !g_single) { stat_addf(1, "skipped_known_crash_%s", t->fn); t->rc = -9999; return 0; }
+    return 1;
+}
+#define CALL(t, expr) (guard(t) ? called((t), (expr)) : 0)
 /* call accounting: one evaluated library call */
 static int called(T *t, int rc)
 {
@@ -404,14 +420,14 @@ static void op_add(T *t)
 {
     t->fn = "pstm_add"; sizes2(t); gen_ab(t, 1, 1); build_abc(t, 5, t->la > t->lb ? t->la : t->lb);
     mpz_add(ZE, ZA, ZB);
-    called(t, pstm_add(t->pa, t->pb, t->pc));
+    CALL(t, pstm_add(t->pa, t->pb, t->pc));
     finish_c(t, ZE, 0);
 }
 static void op_sub(T *t)
 {
     t->fn = "pstm_sub"; sizes2(t); gen_ab(t, 1, 1); build_abc(t, 5, t->la > t->lb ? t->la : t->lb);
     mpz_sub(ZE, ZA, ZB);
-    called(t, pstm_sub(t->pa, t->pb, t->pc));
+    CALL(t, pstm_sub(t->pa, t->pb, t->pc));
     finish_c(t, ZE, 0);
 }
 /* contract: unsigned magnitudes, |a| >= |b|; the sign of c is the caller's business */
@@ -423,7 +439,7 @@ static void op_sub_s(T *t)
     build_abc(t, 5, t->la > t->lb ? t->la : t->lb);
     if (t->has_c) t->oc.sign = PSTM_ZPOS;
     mpz_sub(ZE, ZA, ZB);
-    called(t, pstm_sub_s(t->pa, t->pb, t->pc));
+    CALL(t, pstm_sub_s(t->pa, t->pb, t->pc));
     finish_c(t, ZE, 1);
 }
 static void op_mul_comba(T *t)
@@ -433,7 +449,7 @@ static void op_mul_comba(T *t)
     pstm_digit *pad = mkpad(t, t->pa->used + t->pb->used, &plen, &pmode);
     snprintf(t->extra, sizeof t->extra, "paD=%s", pmode == 0 ? "NULL" : pmode == 1 ? "adequate" : "short");
     mpz_mul(ZE, ZA, ZB);
-    called(t, pstm_mul_comba(NULL, t->pa, t->pb, t->pc, pad, plen));
+    CALL(t, pstm_mul_comba(NULL, t->pa, t->pb, t->pc, pad, plen));
     finish_c(t, ZE, 0);
     free(pad);
 }
@@ -445,7 +461,7 @@ static void op_sqr_comba(T *t)
     pstm_digit *pad = mkpad(t, 2 * t->pa->used, &plen, &pmode);
     snprintf(t->extra, sizeof t->extra, "paD=%s", pmode == 0 ? "NULL" : pmode == 1 ? "adequate" : "short");
     mpz_mul(ZE, ZA, ZA);
-    called(t, pstm_sqr_comba(NULL, t->pa, t->pc, pad, plen));
+    CALL(t, pstm_sqr_comba(NULL, t->pa, t->pc, pad, plen));
     finish_c(t, ZE, 0);
     free(pad);
 }
@@ -469,9 +485,9 @@ static void op_digit(T *t, int which)
     pstm_digit d = pick_digit(t);
     snprintf(t->extra, sizeof t->extra, "digit=0x%llx", (unsigned long long) d);
     mpz_set_ui(ZB, d);
-    if (which == 0) { mpz_mul(ZE, ZA, ZB); called(t, pstm_mul_d(t->pa, d, t->pc)); }
-    else if (which == 1) { mpz_add(ZE, ZA, ZB); called(t, pstm_add_d(NULL, t->pa, d, t->pc)); }
-    else { mpz_sub(ZE, ZA, ZB); called(t, pstm_sub_d(NULL, t->pa, d, t->pc)); }
+    if (which == 0) { mpz_mul(ZE, ZA, ZB); CALL(t, pstm_mul_d(t->pa, d, t->pc)); }
+    else if (which == 1) { mpz_add(ZE, ZA, ZB); CALL(t, pstm_add_d(NULL, t->pa, d, t->pc)); }
+    else { mpz_sub(ZE, ZA, ZB); CALL(t, pstm_sub_d(NULL, t->pa, d, t->pc)); }
     t->vb.used = d ? 1 : 0; t->kb = d == 0 ? K_ZERO : d == 1 ? K_ONE : d == ~0ULL ? K_ALLONES : K_DENSE;
     finish_c(t, ZE, 0);
 }
@@ -497,7 +513,7 @@ static void op_div(T *t)
     snprintf(t->extra, sizeof t->extra, "want=%s%s q=%s r=%s", want & 1 ? "q" : "", want & 2 ? "r" : "",
              q == t->pa ? "a" : q == t->pb ? "b" : q ? "own" : "NULL", r == t->pa ? "a" : r == t->pb ? "b" : r ? "own" : "NULL");
     if (mpz_sgn(ZB) != 0) mpz_tdiv_qr(ZE, ZE2, ZA, ZB);
-    if (called(t, pstm_div(NULL, t->pa, t->pb, q, r))) {
+    if (CALL(t, pstm_div(NULL, t->pa, t->pb, q, r))) {
         if (mpz_sgn(ZB) == 0) report(t, "success-on-zero-divisor", "rc", NULL, NULL);
         else {
             int bad = 0;
@@ -541,8 +557,9 @@ static void op_div_2d(T *t)
     if (mode == 2) { mkstale(t, &t->od, (t->stale + 1) & 3, t->la); t->has_d = 1; r = &t->od; } else if (mode == 3) r = t->pa;
     t->alias = mode == 1 || mode == 3 ? AL_CA : AL_NONE;
     snprintf(t->extra, sizeof t->extra, "shift=%d q=%s r=%s", b, mode == 1 ? "a" : "own", mode == 2 ? "own" : mode == 3 ? "a" : "NULL");
+    t->sigx = 1 + (b <= 0 ? 0 : b < 64 ? 1 : b == 64 ? 2 : (b % 64 == 0) ? 3 : b >= 64 * t->va.used ? 5 : 4) + 6 * mode;   /* crash class: shift class x output mode */
     if (b > 0) { mpz_tdiv_q_2exp(ZE, ZA, b); mpz_tdiv_r_2exp(ZE2, ZA, b); } else { mpz_set(ZE, ZA); mpz_set_ui(ZE2, 0); }
-    if (called(t, pstm_div_2d(NULL, t->pa, (int16_t) b, q, r))) {
+    if (CALL(t, pstm_div_2d(NULL, t->pa, (int16_t) b, q, r))) {
         int bad = check_obj(t, "quotient", q, ZE, 0);
         if (r) bad |= check_obj(t, "remainder", r, ZE2, 0);
         if (q != t->pa && r != t->pa) check_input(t, "input a", t->pa, ZA);
@@ -556,10 +573,10 @@ static void op_unary(T *t, int which)
     t->fn = fns[which]; sizes1(t); t->sa = (int) (snext(t) & 1); t->ka = pick_kind(t);
     gen_val(t, &t->va, t->la, t->ka, t->sa); build_ac(t, 1, t->la + 1);
     switch (which) {
-    case 0: mpz_tdiv_q_2exp(ZE, ZA, 1); called(t, pstm_div_2(t->pa, t->pc)); break;
-    case 1: mpz_mul_2exp(ZE, ZA, 1); called(t, pstm_mul_2(t->pa, t->pc)); break;
-    case 2: mpz_set(ZE, ZA); called(t, pstm_copy(t->pa, t->pc)); break;
-    default: mpz_abs(ZE, ZA); called(t, pstm_abs(t->pa, t->pc)); break;
+    case 0: mpz_tdiv_q_2exp(ZE, ZA, 1); CALL(t, pstm_div_2(t->pa, t->pc)); break;
+    case 1: mpz_mul_2exp(ZE, ZA, 1); CALL(t, pstm_mul_2(t->pa, t->pc)); break;
+    case 2: mpz_set(ZE, ZA); CALL(t, pstm_copy(t->pa, t->pc)); break;
+    default: mpz_abs(ZE, ZA); CALL(t, pstm_abs(t->pa, t->pc)); break;
     }
     finish_c(t, ZE, 0);
 }
@@ -603,7 +620,7 @@ static void op_mod(T *t)
     if (t->special && (snext(t) & 1)) { derive_val(t, &t->va, &t->vb, K_EQUAL + (int) (snext(t) % 3), t->sa); t->ka = t->va.kind; if (t->va.used == 0) t->va.sign = 0; }
     build_abc(t, 3, t->lb);                        /* none, c=a, c=b */
     mpz_mod(ZE, ZA, ZB);
-    called(t, pstm_mod(NULL, t->pa, t->pb, t->pc));
+    CALL(t, pstm_mod(NULL, t->pa, t->pb, t->pc));
     finish_c(t, ZE, 0);
 }
 static void op_mulmod(T *t)
@@ -623,7 +640,7 @@ static void op_mulmod(T *t)
     snprintf(t->extra, sizeof t->extra, "out=%s", al == 3 ? "a" : al == 4 ? "b" : al == 6 ? "modulus" : "own");
     val_to_mpz(ZA, &t->va); val_to_mpz(ZB, &t->vb); val_to_mpz(ZC, &t->vc);
     mpz_mul(ZE, ZA, ZB); mpz_mod(ZE, ZE, ZC);
-    if (called(t, pstm_mulmod(NULL, t->pa, t->pb, &om, t->pc))) {
+    if (CALL(t, pstm_mulmod(NULL, t->pa, t->pb, &om, t->pc))) {
         if (!check_obj(t, "result", t->pc, ZE, 0)) sample(t, ZE);
         inputs_unchanged(t);
         if (t->pc != &om) check_input(t, "modulus", &om, ZC);
@@ -691,8 +708,7 @@ static void op_exptmod(T *t)
         snprintf(t->extra, sizeof t->extra, "pbits=%d x=%s g=%s%s", 64 * n, xn[xk], gn[gk], even ? " even-modulus" : "");
     }
     if (!even) mpz_powm(ZE, ZA, ZB, ZC);
-    i = pstm_exptmod(NULL, t->pa, t->pb, &op, t->pc);
-    if (called(t, i)) {
+    if (CALL(t, pstm_exptmod(NULL, t->pa, t->pb, &op, t->pc))) {
         if (even) { mpz_powm(ZE, ZA, ZB, ZC); }
         if (!check_obj(t, "result", t->pc, ZE, 0)) sample(t, ZE);
         inputs_unchanged(t);
@@ -726,7 +742,7 @@ static void op_invmod(T *t)
     have_inv = mpz_invert(ZE, ZA, ZB);
     int strict = mpz_sgn(ZA) > 0 && mpz_cmp(ZA, ZB) < 0;
     snprintf(t->extra, sizeof t->extra, "%s modulus, a %s, inverse %s", (t->vb.d[0] & 1) ? "odd" : "even", strict ? "reduced" : mpz_sgn(ZA) < 0 ? "negative" : "unreduced", have_inv ? "exists" : "does not exist");
-    if (called(t, pstm_invmod(NULL, t->pa, t->pb, t->pc))) {
+    if (CALL(t, pstm_invmod(NULL, t->pa, t->pb, t->pc))) {
         if (!have_inv) { if (t->pc->used <= t->pc->alloc) obj_to_mpz(ZG, t->pc); report(t, "success-without-inverse", "result", ZG, NULL); }
         else if (strict) {
             if (check_inv(t, "result", t->pc, ZE) != 2) {
@@ -767,8 +783,8 @@ static void op_shd(T *t, int left)
     mkobj(&t->oa, &t->va, pick_extra(t)); t->has_a = 1; t->pa = t->pc = &t->oa; t->alias = AL_CA;
     val_to_mpz(ZA, &t->va);
     snprintf(t->extra, sizeof t->extra, "digits=%d", b);
-    if (left) { mpz_mul_2exp(ZE, ZA, 64UL * b); called(t, pstm_lshd(t->pa, (uint16_t) b)); }
-    else { mpz_tdiv_q_2exp(ZE, ZA, 64UL * b); pstm_rshd(t->pa, (uint16_t) b); called(t, 0); }
+    if (left) { mpz_mul_2exp(ZE, ZA, 64UL * b); CALL(t, pstm_lshd(t->pa, (uint16_t) b)); }
+    else { mpz_tdiv_q_2exp(ZE, ZA, 64UL * b); if (guard(t)) { pstm_rshd(t->pa, (uint16_t) b); called(t, 0); } }
     if (t->rc >= 0) { if (!check_obj(t, "result", t->pa, ZE, 0)) sample(t, ZE); }
     distinct("%s|%d|%d|%d|%d", t->fn, szclass(t->va.used), t->ka, t->va.sign, b == 0 ? 0 : b < t->la ? 1 : b == t->la ? 2 : 3);
 }
@@ -792,7 +808,7 @@ static void op_2expt(T *t)
     snprintf(t->extra, sizeof t->extra, "bit=%d", b);
     mpz_set_ui(ZE, 1); mpz_mul_2exp(ZE, ZE, (unsigned long) b);
     mpz_set_ui(ZA, (unsigned long) b);
-    called(t, pstm_2expt(t->pc, (int16_t) b));
+    CALL(t, pstm_2expt(t->pc, (int16_t) b));
     if (t->rc >= 0) { if (!check_obj(t, "result", t->pc, ZE, 0)) sample(t, ZE); }
     distinct("pstm_2expt|%d|%d|%d", b / 64 < 70 ? b / 64 : 70 + b / 640, b % 64 == 0 ? 0 : b % 64 == 63 ? 2 : 1, t->stale);
 }
@@ -865,7 +881,7 @@ static void op_read_unsigned_bin(T *t)
     else mkstale(t, &t->oc, t->stale, t->la);
     t->has_c = 1; t->pc = &t->oc;
     snprintf(t->extra, sizeof t->extra, "len=%d leading-zero-bytes=%d object=%s", len, lead, prep ? "reused" : "init_for_read_unsigned_bin");
-    called(t, pstm_read_unsigned_bin(t->pc, buf, (psSize_t) len));
+    CALL(t, pstm_read_unsigned_bin(t->pc, buf, (psSize_t) len));
     if (t->rc >= 0) { if (!check_obj(t, "result", t->pc, ZA, 0)) sample(t, ZA); }
     distinct("pstm_read_unsigned_bin|%d|%d|%d|%d|%d", t->va.used, t->ka, (int) (cnt % 8), lead != 0, t->stale);
     free(buf);
@@ -880,7 +896,7 @@ static void op_to_unsigned_bin(T *t)
     mpz_export(exp, &cnt, which ? -1 : 1, 1, 0, 0, ZA);
     unsigned char *out = malloc(cnt ? cnt : 1);      /* exact size: an over-long write is caught by ASan */
     memset(out, 0x5a, cnt ? cnt : 1);
-    called(t, which ? pstm_to_unsigned_bin_nr(NULL, t->pa, out) : pstm_to_unsigned_bin(NULL, t->pa, out));
+    CALL(t, which ? pstm_to_unsigned_bin_nr(NULL, t->pa, out) : pstm_to_unsigned_bin(NULL, t->pa, out));
     if (t->rc >= 0) {
         if (memcmp(out, exp, cnt)) { mpz_import(ZG, cnt, which ? -1 : 1, 1, 0, 0, out); mpz_abs(ZT2, ZA); report(t, "wrong-value", "exported bytes", ZG, ZT2); }
         else sample(t, ZA);
@@ -908,7 +924,7 @@ static void op_read_asn(T *t)
     memcpy(p, v, vlen); p += vlen; memset(p, 0x30, trail);
     pp = der; memset(&a, 0, sizeof a);
     snprintf(t->extra, sizeof t->extra, "value-bytes=%zu trailing=%zu", vlen, trail);
-    if (called(t, pstm_read_asn(NULL, &pp, (psSize_t) total, &a))) {
+    if (CALL(t, pstm_read_asn(NULL, &pp, (psSize_t) total, &a))) {
         if (!check_obj(t, "result", &a, ZA, 0)) sample(t, ZA);
         check_int(t, "bytes consumed", (long) (pp - der), (long) (hl + vlen));
         pstm_clear(&a);
@@ -929,7 +945,7 @@ static void op_read_radix(T *t)
     t->stale = (int) (snext(t) & 3);
     mkstale(t, &t->oc, t->stale, t->la); t->has_c = 1; t->pc = &t->oc;
     snprintf(t->extra, sizeof t->extra, "radix=%d chars=%zu", radix, strlen(s));
-    called(t, pstm_read_radix(NULL, t->pc, s, (psSize_t) strlen(s), (uint8_t) radix));
+    CALL(t, pstm_read_radix(NULL, t->pc, s, (psSize_t) strlen(s), (uint8_t) radix));
     if (t->rc >= 0) { if (!check_obj(t, "result", t->pc, ZA, 0)) sample(t, ZA); }
     distinct("pstm_read_radix|%d|%d|%d|%d|%d", szclass(t->va.used), t->ka, radix, t->va.sign, t->stale);
     free(s);
@@ -943,7 +959,7 @@ static void op_init_copy(T *t)
     mkobj(&t->oa, &t->va, pick_extra(t)); t->has_a = 1; t->pa = &t->oa; val_to_mpz(ZA, &t->va);
     memset(&a, 0, sizeof a);
     snprintf(t->extra, sizeof t->extra, "toSqr=%d", sq);
-    if (called(t, pstm_init_copy(NULL, &a, t->pa, (uint8_t) sq))) {
+    if (CALL(t, pstm_init_copy(NULL, &a, t->pa, (uint8_t) sq))) {
         if (!check_obj(t, "result", &a, ZA, 0)) sample(t, ZA);
         check_input(t, "input", t->pa, ZA);
         pstm_clear(&a);
@@ -957,6 +973,7 @@ static void op_set(T *t)
     mkstale(t, &t->oc, t->stale, 1 + (int) (snext(t) % 40)); t->has_c = 1; t->pc = &t->oc;
     snprintf(t->extra, sizeof t->extra, "digit=0x%llx", (unsigned long long) d);
     mpz_set_ui(ZE, d); mpz_set(ZA, ZE);
+    if (!guard(t)) return;
     pstm_set(t->pc, d); called(t, 0);
     if (!check_obj(t, "result", t->pc, ZE, 0)) sample(t, ZE);
     distinct("pstm_set|%d|%d", t->stale, d == 0 ? 0 : d == 1 ? 1 : 2);
@@ -971,7 +988,7 @@ static void op_mont_setup(T *t)
     even = (snext(t) % 8 == 0);
     gen_modulus(t, &t->va, t->la, even ? 2 : 1, &t->ka);
     mkobj(&t->oa, &t->va, pick_extra(t)); t->has_a = 1; t->pa = &t->oa; val_to_mpz(ZA, &t->va);
-    if (called(t, pstm_montgomery_setup(t->pa, &rho))) {
+    if (CALL(t, pstm_montgomery_setup(t->pa, &rho))) {
         mpz_set_ui(ZG, rho);
         if (even) report(t, "success-on-even-modulus", "rho", ZG, NULL);
         else {
@@ -993,7 +1010,7 @@ static void op_mont_norm(T *t)
     mkstale(t, &t->oc, t->stale, t->la); t->has_c = 1; t->pc = &t->oc;
     mpz_set_ui(ZA, 0);
     mpz_set_ui(ZE, 1); mpz_mul_2exp(ZE, ZE, 64UL * t->vb.used); mpz_mod(ZE, ZE, ZB);
-    called(t, pstm_montgomery_calc_normalization(t->pc, t->pb));
+    CALL(t, pstm_montgomery_calc_normalization(t->pc, t->pb));
     if (t->rc >= 0) { if (!check_obj(t, "result", t->pc, ZE, 0)) sample(t, ZE); check_input(t, "modulus", t->pb, ZB); }
     distinct("pstm_montgomery_calc_normalization|%d|%d|%d", t->vb.used, t->kb, t->stale);
 }
@@ -1024,7 +1041,7 @@ static void op_mont_reduce(T *t)
     snprintf(t->extra, sizeof t->extra, "akind=%d paD=%s", ak, pmode == 0 ? "NULL" : pmode == 1 ? "adequate" : "short");
     mpz_invert(ZE, ZT, ZB); mpz_mul(ZE, ZE, ZA); mpz_mod(ZE, ZE, ZB);    /* a * R^-1 mod m */
     if (mpz_cmp_ui(ZB, 1) == 0) mpz_set_ui(ZE, 0);
-    called(t, pstm_montgomery_reduce(NULL, t->pa, t->pb, mp, pad, plen));
+    CALL(t, pstm_montgomery_reduce(NULL, t->pa, t->pb, mp, pad, plen));
     if (t->rc >= 0) { if (!check_obj(t, "result", t->pa, ZE, 0)) sample(t, ZE); check_input(t, "modulus", t->pb, ZB); }
     distinct("pstm_montgomery_reduce|%d|%d|%d|%d", n, t->kb, ak, pmode);
     free(pad);
@@ -1043,7 +1060,7 @@ static const opdef OPS[] = {
     { "add_d", op_add_d, 8192, 0, 2048 },
     { "sub_d", op_sub_d, 8192, 0, 2048 },
     { "div", op_div, 8192, 2, 256 },
-    { "div_2d", op_div_2d, 12288, 0, 2048 },
+    { "div_2d", op_div_2d, 12288, 0, 512 },
     { "div_2", op_div_2, 6144, 0, 2048 },
     { "mul_2", op_mul_2, 6144, 0, 2048 },
     { "mod", op_mod, 6144, 2, 256 },
@@ -1152,6 +1169,7 @@ int main(int argc, char **argv)
                 if (rc == 0) break;
                 /* the child died in case SH->cur: recorded with its exact spec; go on behind it */
                 stat_addf(1, "aborted_%s", OPS[i].name);
+                if (SH->crashcnt[i][SH->cursig & 255] < 255) SH->crashcnt[i][SH->cursig & 255]++;
                 from = SH->cur + 1;
                 if (++crashes[i] >= crash_budget) { stat_addf(to - from, "skipped_after_crashes_%s", OPS[i].name); break; }
             }
